@@ -7,6 +7,7 @@
 //verif:replace (*github.com/celestiaorg/celestia-node/share/shwap/pb.Row).Unmarshal github.com/celestiaorg/celestia-node/share/shwap/p2p/bitswap.verifBSRowUnmarshal
 //verif:replace github.com/celestiaorg/celestia-node/share/shwap.RowFromProto github.com/celestiaorg/celestia-node/share/shwap/p2p/bitswap.verifBSRowFromProto
 //verif:replace (*github.com/celestiaorg/celestia-node/share/shwap.Row).Verify github.com/celestiaorg/celestia-node/share/shwap/p2p/bitswap.verifBSRowVerify
+//verif:include ../C10/mhreg.go
 //verif:noop go.opentelemetry.io/otel github.com/celestiaorg/celestia-app/v9/pkg/da github.com/ipfs/go-log/v2 go.uber.org/zap
 //verif:bound bitswap getter: GetSamples for 2 coordinates and GetRow, real Getter + session pool + Fetch + hasher + block UnmarshalFn; the exchange delivers, per requested CID, 0..2 blocks in any order, each decodable and either verifying or not (an honest peer after a lying one and vice versa), and may end the context before, between or after deliveries
 //verif:assume the exchange is a model that - like Bitswap - runs every received block through the registered hasher (hasher.write) and hands it to the session only when the hasher accepts; container decode and verification are ideal verdicts that tag every decoded container with the block it came from
@@ -123,7 +124,9 @@ func (e *verifBSExchange) GetBlocks(ctx context.Context, cids []cid.Cid) (<-chan
 			k := len(verifDeliveries)
 			verifDeliveries = append(verifDeliveries, verifDelivery{cid: c, verifies: nd.Choice(2, "verifies") == 1})
 			data := []byte{byte(k)}
-			hs := &hasher{IDSize: e.idSize}
+			// the hasher Bitswap picks: the one registered for the multihash
+			// code of the CID the block is announced under
+			hs := verifHasherFor(c.Prefix().MhType)
 			if _, err := hs.Write(data); err != nil {
 				continue // Bitswap drops a block whose hash check fails
 			}
